@@ -401,6 +401,7 @@ def eval_placement(env, case, pl, mod, kw_d, kw_s, wit, feat, gsig, ndata):
     i = pl["i"]
     ref = pl["refs"]["T_s%d" % i]
     T_s = getattr(mod, "T_s%d" % i)
+    cache.reset()  # type-keyed caches identify Union[A, B] and Union[B, A] (F21): never share an epoch between the two sides
     m_s = harness.call(deserialization_method, T_s)
     if m_op.kind != "ok" or m_s.kind != "ok":
         if m_op.kind == m_s.kind and m_op.exc == m_s.exc:
@@ -421,6 +422,7 @@ def eval_placement(env, case, pl, mod, kw_d, kw_s, wit, feat, gsig, ndata):
     alt_methods = []
     if root_exact:
         for j in range(len(exp.alts)):
+            cache.reset()
             o = harness.call(deserialization_method, getattr(mod, "T_s%d_a%d" % (i, j)))
             if o.kind != "ok":
                 env.count("abstain:reference alternative fails to compile")
@@ -434,7 +436,9 @@ def eval_placement(env, case, pl, mod, kw_d, kw_s, wit, feat, gsig, ndata):
     if single_alts and ambiguous_union_serialization(exp):
         env.count("abstain:serialization of a union of two sequence-like / mapping-like alternatives")
     elif single_alts:
-        so, sr = harness.call(serialization_method, T_op, **kw_s), harness.call(serialization_method, T_s)
+        so = harness.call(serialization_method, T_op, **kw_s)
+        cache.reset()
+        sr = harness.call(serialization_method, T_s)
         if so.kind == "ok" and sr.kind == "ok":
             s_op, s_s = so.value, sr.value
         elif so.kind == sr.kind and so.exc == sr.exc:
@@ -713,7 +717,10 @@ def chain_depth(t):
 def compare_schemas(env, case, pl, mod, which, fn, kw, data, wit, feat):
     i = pl["i"]
     exp = pl["exp"]
+    from apischema import cache
+
     a = harness.call(fn, mod.T_op, **kw)
+    cache.reset()
     b = harness.call(fn, getattr(mod, "T_s%d" % i))
     short = "des" if which == "deserialization" else "ser"
     if a.kind != "ok" or b.kind != "ok":
@@ -1247,22 +1254,41 @@ def one_graph(env, j, ndata):
         prog.unload()
 
 
+PARTS = ("graph", "inherit", "identity", "recursive")
+
+
+def run_part(env, part, j, ndata=22):
+    """one unit of work with its own PRNG (derived from seed / tier / shard / index / part), so that a witness can be
+    regenerated alone by `replay`"""
+    from vf.core import h64
+
+    env.rng = random.Random(h64("c12", env.seed, env.tier, env.shard, env.nshards, j, part))
+    env.cur = {"tier": env.tier, "shard": env.shard, "nshards": env.nshards, "j": j, "part": part}
+    if part == "graph":
+        one_graph(env, j, ndata)
+    else:
+        g = gen_types.Gen(env.rng, max_depth=2, recursion=False)
+        {"inherit": family_inherit, "identity": family_identity, "recursive": family_recursive}[part](env, g)
+
+
+def tag_origin(env):
+    if getattr(env, "_c12_tagged", False):
+        return
+    orig = env.violation
+    env.violation = lambda feat, wit: orig(feat, {**wit, "origin": dict(getattr(env, "cur", {}))})
+    env._c12_tagged = True
+
+
 def run(env):
+    tag_origin(env)
     n = env.n(2400, 90000)
     for j in range(n):
         if env.out_of_time():
             env.notes.append("time cap reached")
             break
-        one_graph(env, j, ndata=22)
-        if j % 6 == 0:
-            g = gen_types.Gen(env.rng, max_depth=2, recursion=False)
-            family_inherit(env, g)
-        if j % 6 == 2:
-            g = gen_types.Gen(env.rng, max_depth=2, recursion=False)
-            family_identity(env, g)
-        if j % 6 == 4:
-            g = gen_types.Gen(env.rng, max_depth=2, recursion=False)
-            family_recursive(env, g)
+        run_part(env, "graph", j)
+        if j % 6 in (0, 2, 4):
+            run_part(env, PARTS[1 + (j % 6) // 2], j)
 
 
 def finish_coverage(cov, counters, tier):
@@ -1272,54 +1298,22 @@ def finish_coverage(cov, counters, tier):
 
 
 def replay(env, rep):
-    """re-run a witness: reload the program source and re-evaluate the recorded placement on the recorded datum"""
+    """regenerate the unit of work (graph / template family instance) the witness came from -- its PRNG is derived from
+    (seed, tier, shard, nshards, index, part) only -- and re-evaluate every oracle on it; the witness reproduces when a
+    violation with the same features is reported again"""
     w = rep["witness"]
+    o = w.get("origin")
     print("replay: family", w.get("family"), "placement", w.get("placement"), "type", w.get("type"))
-    print("recorded observed:", w.get("observed"), "| expected:", w.get("expected") or w.get("expected_errors") or w.get("mismatch"))
-    seed = rep.get("seed", 0)
-    # the graph objects are not serialised; re-run the generating shard is the faithful replay
-    print("to reproduce: VERIF_SEED=%s ./check C12 --tier %s  (deterministic given the seed); the witness holds the full program source, "
-          "placement (registered / dynamic tags) and datum for a manual re-run" % (seed, rep.get("tier", "quick")))
-    try:
-        prog = load_source(w["program"])
-    except Exception as e:
-        print("program does not load:", type(e).__name__, e)
+    print("recorded observed:", json.dumps(w.get("observed"), default=str)[:400])
+    if not o:
+        print("witness has no origin; cannot regenerate")
         return
-    mod = prog.module
-    fam = w.get("family")
-    if fam in ("inherit", "identity", "recursive") or "datum" not in w:
-        print("template family: program loads; see witness for the call")
-        env.violation(rep["features"], w)
-        return
-    from apischema import deserialization_method, deserializer, serializer
-
-    class _K:
-        pass
-
-    try:
-        for cname, tags in w.get("registered", {}).items():
-            for tg in tags:
-                if tg in mod.LAZY_DES:
-                    deserializer(lazy=mod.LAZY_DES[tg], target=mod.CLS[cname])
-                else:
-                    deserializer(mod.DES[tg])
-        kw = {}
-        if w.get("placement") == "def":
-            from apischema.conversions.converters import default_deserialization
-            dmap = {mod.CLS[c]: tuple(mod.DES[t] for t in tags) for c, tags in w.get("registered", {}).items()}
-            for c in dmap:
-                from apischema.conversions import reset_deserializers
-                reset_deserializers(c)
-            kw["default_conversion"] = lambda tp: dmap.get(tp) if tp in dmap else default_deserialization(tp)
-        if w.get("dynamic"):
-            kw["conversion"] = tuple(mod.DES[t] for t in w["dynamic"])
-        import apischema
-        apischema.cache.reset()
-        o = harness.call(deserialization_method, mod.T_op, **kw)
-        if o.kind == "ok":
-            o = harness.call(o.value, w["datum"])
-        print("observed now:", o.brief())
-        if repr(o.brief()) == repr(w.get("observed")):
-            env.violation(rep["features"], w)
-    finally:
-        cleanup(mod)
+    env.seed, env.tier, env.shard, env.nshards = rep.get("seed", env.seed), o["tier"], o["shard"], o["nshards"]
+    tag_origin(env)
+    run_part(env, o["part"], o["j"])
+    same = [v for v in env.violations if v["features"] == rep["features"]]
+    other = [v for v in env.violations if v["features"] != rep["features"]]
+    print(f"regenerated {o}: {len(same)} violation(s) with the recorded features, {len(other)} other")
+    for v in same[:1]:
+        print("observed now:", json.dumps(v["witness"].get("observed"), default=str)[:400])
+    env.violations[:] = same
